@@ -347,9 +347,9 @@ class CNLTransformer(Transformer):
         telingo_operation = elem[5]
         if TELINGO_DUAL_OPERATOR:
             operation = OperationComponent(TELINGO_DUAL_OPERATOR, operation, telingo_operation)
-        if elem[3] and elem[3][1] == 'since before':
+        if elem[3] and (elem[3][1] == 'since before' or (elem[1] == 'since before' and elem[3][1])):
             operation = OperationComponent(Operators.PREVIOUS, operation)
-        elif elem[3] and elem[3][1] == 'since after':
+        elif elem[3] and (elem[3][1] == 'since after' or (elem[1] == 'since after' and elem[3][1])):
             operation = OperationComponent(Operators.NEXT, operation)
         if elem[0]:
             operation.negated = True
